@@ -449,6 +449,12 @@ func c09Strata() []*gast.Grammar {
 		mk(r("S", gast.S(gast.Star(gast.C(gast.Ref("W"), gast.Ref("D"), gast.L("_"))), gast.Star(gast.Dot()))), r("W", gast.Cl(&gast.ClassSpec{UClasses: []string{"N"}})), r("D", gast.Cl(&gast.ClassSpec{UClasses: []string{"Nko"}}))),
 		mk(r("S", gast.S(gast.Star(gast.Cl(&gast.ClassSpec{UClasses: []string{"L", "Latin"}, Inverted: true})), gast.Star(gast.Dot()))), r("X", gast.L("ªa1"))),
 		mk(r("S", gast.S(act(gast.Plus(gast.Cl(&gast.ClassSpec{UClasses: []string{"C", "Cyrillic"}, Chars: []rune("-")})), 1), gast.Star(gast.Dot())))),
+		// a leaf rule whose body is a recovery operator binding a label that the host binds as well: after
+		// inlining, the operator's operands still have a label scope of their own (F26, fixed)
+		mk(r("S", gast.A(gast.S(gast.Lab("v", gast.Ref("N")), gast.L("+"), gast.Ref("T"), gast.NotE(gast.Dot())), 1, mon.Spec{R: 3})),
+			r("T", gast.Rec(gast.A(gast.Lab("v", gast.Ref("N")), 2, mon.Spec{R: 3}), gast.Star(gast.Dot()), "L1")), r("N", gast.A(gast.Plus(gast.Cl(&gast.ClassSpec{Ranges: [][2]rune{{'0', '9'}}})), 3, mon.Spec{R: 2}))),
+		mk(r("S", gast.A(gast.S(gast.Lab("v", gast.Ref("N")), gast.Star(gast.S(gast.L(","), gast.Ref("T"))), gast.Lab("w", gast.Opt(gast.Ref("T")))), 1, mon.Spec{})),
+			r("T", gast.Rec(gast.S(gast.Lab("v", gast.Cl(gast.Chars("ab"))), gast.Lab("w", gast.C(gast.L("!"), gast.Thr("L1")))), gast.A(gast.Lab("v", gast.L("?")), 2, mon.Spec{}), "L1")), r("N", gast.A(gast.Plus(gast.Cl(&gast.ClassSpec{Ranges: [][2]rune{{'0', '9'}}})), 3, mon.Spec{R: 2}))),
 		// keyword idiom: literals with and without i next to each other, some without cased characters
 		mk(r("S", gast.S(gast.Li("select"), gast.L(" "), gast.Ref("N"), gast.L(" "), gast.Li("from"), gast.L(" "), gast.Ref("N"), gast.Opt(gast.S(gast.L(" "), gast.Li("order"), gast.Li(" by"), gast.L(" "), gast.Ref("N"))), gast.L(";"))),
 			r("N", gast.Plus(gast.Cl(gast.Chars("ab"))))),
